@@ -39,32 +39,123 @@ def strip_wrappers(e):
 
 # ------------------------------------------------------------------ guard edges
 def guard_edges(body, leaf_pred, truth=True):
-    """CFG edges on which `leaf_pred` holds with truth value `truth`.
-    Handles negation wrappers, `Try::branch` (Continue arm = success when truth=True),
-    and `Option`/`Result` discriminants (`is_some`/`is_ok` idiom in `if let`)."""
-    out = []
-    for bi, e, targets, otherwise in body.switch_edges():
-        def want(leaf, _p=leaf_pred):
-            return truth if _p(strip_wrappers(leaf)) else None
+    """CFG edges on which `leaf_pred` holds with truth value `truth`."""
+    return guard_edges_multi(body, [(leaf_pred, truth)])
 
-        r = F.bool_edges(body, bi, e, targets, otherwise, want)
-        if r:
-            out.extend(r)
-            continue
-        # discriminant of Try::branch(guard(..)): 0 = Continue (success), 1 = Break
-        if e[0] == "discr":
-            inner = e[1]
-            if inner[0] == "call" and inner[1].endswith("::branch") and inner[2]:
-                g = strip_wrappers(inner[2][0])
-                if leaf_pred(g):
-                    for v, tb in targets:
-                        if (v == 0) == truth:
-                            out.append((bi, tb))
-                    if not any(v == 0 for v, _ in targets) and truth:
-                        out.append((bi, otherwise))
-                    elif not any(v == 1 for v, _ in targets) and not truth:
-                        out.append((bi, otherwise))
+
+def guard_edges_multi(body, specs):
+    """CFG edges on which at least one of the (leaf_pred, truth) specs is known to hold.
+    Handles negation wrappers, `Try::branch` (Continue arm = success when truth=True), and
+    booleans materialised by `&&` / `||` (a bool local assigned in several blocks and switched
+    on later): the edge L==v counts if every definition that can give L the value v either is a
+    spec leaf with the right polarity or sits in a block already dominated by found edges."""
+    out = []
+    pending = []
+    for bi, e, targets, otherwise in body.switch_edges():
+        got = False
+        for leaf_pred, truth in specs:
+            def want(leaf, _p=leaf_pred, _t=truth):
+                return _t if _p(strip_wrappers(leaf)) else None
+
+            r = F.bool_edges(body, bi, e, targets, otherwise, want)
+            if r:
+                out.extend(r)
+                got = True
+                continue
+            # discriminant of Try::branch(guard(..)): 0 = Continue (success), 1 = Break
+            if e[0] == "discr":
+                inner = e[1]
+                if inner[0] == "call" and inner[1].endswith("::branch") and inner[2]:
+                    g = strip_wrappers(inner[2][0])
+                    if leaf_pred(g):
+                        got = True
+                        for v, tb in targets:
+                            if (v == 0) == truth:
+                                out.append((bi, tb))
+                        if not any(v == 0 for v, _ in targets) and truth:
+                            out.append((bi, otherwise))
+                        elif not any(v == 1 for v, _ in targets) and not truth:
+                            out.append((bi, otherwise))
+        if not got:
+            pending.append((bi, e, targets, otherwise))
+    # materialised booleans
+    changed = True
+    while changed:
+        changed = False
+        for item in list(pending):
+            bi, e, targets, otherwise = item
+            cur, pol = F.peel_polarity(e)
+            if cur[0] != "local":
+                continue
+            l = cur[1]
+            if body.local_ty(l) != "bool":
+                continue
+            defs = body.defs().get(l, [])
+            if len(defs) < 2:
+                continue
+            tt, ft = F.bool_targets(targets, otherwise)
+            reach = body.reachable(0, cut_edges=out)
+            for val in (True, False):
+                ok = True
+                any_def = False
+                for (dbi, si, kind, payload) in defs:
+                    if dbi not in body.live_blocks():
+                        continue
+                    if kind == "assign" and payload["rv"] == "use" and "iv" in payload["o"]:
+                        if bool(int(payload["o"]["iv"])) != val:
+                            continue  # cannot produce `val`
+                        any_def = True
+                        if dbi in reach:
+                            ok = False
+                        continue
+                    any_def = True
+                    de = body.expr_rvalue(payload) if kind == "assign" else ("call", payload["f"].get("def", "?"), [body.expr(a) for a in payload["args"]], dbi)
+                    dcur, dpol = F.peel_polarity(de)
+                    matched = False
+                    for leaf_pred, truth in specs:
+                        if leaf_pred(strip_wrappers(dcur)) and ((val == dpol) == truth):
+                            matched = True
+                    if not matched and dbi in reach:
+                        ok = False
+                if ok and any_def:
+                    # L == val on the switch edge; account for negation wrappers of the switch operand
+                    want_true_edge = (val == pol)
+                    for t in (tt if want_true_edge else ft):
+                        if (bi, t) not in out:
+                            out.append((bi, t))
+                            changed = True
+                    if item in pending:
+                        pending.remove(item)
     return out
+
+
+VIEW_CALLS = ("::deref", "::deref_mut", "::as_ref", "::as_mut", "::as_slice", "::as_mut_slice", "::borrow", "::as_bytes", "::as_str")
+
+
+def root_local(body, e, depth=10, any_call=False):
+    """the local an expression is a whole-value view of (through refs, derefs, casts and
+    view calls such as Deref::deref / as_slice taking it as first argument)"""
+    for _ in range(depth):
+        if e[0] in ("ref", "place"):
+            l = e[1][0]
+            ds = body.defs().get(l, [])
+            if body.locals[l].get("n") or l <= body.argc or len(ds) != 1:
+                return l
+            inner = body.expr_place([l])
+            if inner[0] in ("local",) or inner == e:
+                return l
+            e = inner
+            continue
+        if e[0] == "local":
+            return e[1]
+        if e[0] == "call" and e[2] and (any_call or e[1].endswith(VIEW_CALLS)):
+            e = e[2][0]
+            continue
+        if e[0] == "cast":
+            e = e[1]
+            continue
+        return None
+    return None
 
 
 def edges_of_switch_on(body, leaf_pred):
